@@ -80,7 +80,9 @@ struct Obs {
 const INJECTED: u32 = 999;
 
 /// which: 0 = fresh layer built from the seed, 1 = second `.layer()` call on one layer object,
-/// 2 = like 0 but requests selected by `clone_mask` go through fresh clones of the service
+/// 2 = like 0 but requests selected by `clone_mask` go through fresh clones of the service,
+/// 3 = like 0 but every response future is polled right after its call() (in the other runs all
+/// futures of one instant are created first and polled afterwards, in the same order)
 async fn trace(case: &ChaosCase, which: u8) -> (Vec<Obs>, Vec<String>) {
     let mut violations = vec![];
     let log = Log::new();
@@ -170,6 +172,9 @@ async fn trace(case: &ChaosCase, which: u8) -> (Vec<Obs>, Vec<String>) {
                         serial: e.serial,
                     },
                 }));
+                if which == 3 {
+                    sim.settle().await;
+                }
             }
         }
         sim.settle().await;
@@ -260,8 +265,16 @@ pub fn run_case(case: &ChaosCase) -> Report {
     let (b, vb) = sim::run_case(trace(case, 0));
     let (c, vc) = sim::run_case(trace(case, 1));
     let (d, vd) = sim::run_case(trace(case, 2));
-    for v in va.into_iter().chain(vb).chain(vc).chain(vd) {
+    let (e, ve) = sim::run_case(trace(case, 3));
+    for v in va.into_iter().chain(vb).chain(vc).chain(vd).chain(ve) {
         r.fail(v);
+    }
+    if a != e {
+        let i = (0..a.len()).find(|&i| a[i] != e[i]).unwrap_or(0);
+        r.fail(format!(
+            "same seed, same requests in the same order, yet the decisions depend on whether a response future is polled right after its call() or after the other calls of that instant were made: request {i} gives {:?} vs {:?}",
+            e[i], a[i]
+        ));
     }
     if a != d {
         let i = (0..a.len()).find(|&i| a[i] != d[i]).unwrap_or(0);
@@ -347,6 +360,9 @@ pub fn run_case(case: &ChaosCase) -> Report {
     }
     if case.min_ms > case.max_ms {
         r.class("min_greater_than_max");
+    }
+    if case.requests.iter().skip(1).any(|q| q.0 == 0) {
+        r.class("several_calls_before_first_poll");
     }
     if case.clone_mask != 0 {
         r.class("requests_through_fresh_clones");
